@@ -3,6 +3,8 @@
 package commands
 
 import (
+	"strings"
+
 	"github.com/tucats/ego/internal/cli/cli"
 	"github.com/tucats/ego/internal/cli/settings"
 	"github.com/tucats/ego/internal/defs"
@@ -65,6 +67,44 @@ func VerifC07RunConsole(sandbox bool) (int, error) {
 	compiler.DebugMode = false
 
 	settings.SetDefault(defs.AllowFunctionRedefinitionSetting, "true")
+
+	staticTypes := configureTypeCompliance(c)
+
+	session.symbolTable = initializeSymbols(c, session.mainName, make([]any, 0), staticTypes, session.interactive)
+	session.symbolTable.Root().SetAlways(defs.MainVariable, defs.Main)
+	session.symbolTable.Root().SetAlways(defs.ExtensionsVariable, session.extensions)
+	session.symbolTable.Root().SetAlways(defs.UserCodeRunningVariable, true)
+
+	return session.run(c)
+}
+
+// VerifC07RunPiped runs a program text the way RunAction does when no file is
+// named and the standard input is a pipe (readPipedSource): line endings
+// normalized, final newline guaranteed, entry point directive appended only
+// when the text declares func main (declaresFunction), interactive and
+// command-line at once.
+func VerifC07RunPiped(text string, sandbox bool) (int, error) {
+	c := &cli.Context{}
+	sb := sandbox
+
+	session := &runSession{
+		prompt:         "ego> ",
+		wasCommandLine: true,
+		interactive:    true,
+		extensions:     settings.GetBool(defs.ExtensionsEnabledSetting),
+		entryPoint:     defs.Main,
+		mainName:       stdinSourceName,
+		sandbox:        &sb,
+	}
+
+	text = normalizeLineEndings(text)
+	if text != "" && !strings.HasSuffix(text, "\n") {
+		text += "\n"
+	}
+
+	session.text = session.entryPointForPipedSource(text)
+
+	compiler.DebugMode = false
 
 	staticTypes := configureTypeCompliance(c)
 
